@@ -2,9 +2,9 @@ package props
 
 import (
 	"bytes"
-	"reflect"
 	"encoding/json"
 	"fmt"
+	"reflect"
 
 	"verifharness/mon"
 	"verifharness/ref"
@@ -212,7 +212,6 @@ func c09(x *mon.Ctx) {
 	})
 	x.Require("message", nm, 0, nm)
 }
-
 
 // rehome moves every byte field of the message into ONE buffer, as consecutive windows (in field order or
 // reversed), so that each field's spare capacity is the bytes of the fields that follow it. Returns the buffer.
